@@ -666,6 +666,8 @@ func runC08(r *run) {
 			{"{% for g in \"ab\" %}{{ g }}{% endfor %}{{ g }}", "abG"},
 			{"{% with x=\"WX\" %}{% include \"inc.tpl\" %}{% endwith %}{% for y in \"pq\" %}{% include \"inc.tpl\" %}{% endfor %}{% set g = \"SG\" %}{% include \"inc.tpl\" %}{% ssi \"inc.tpl\" parsed %}", "<WX,GY,G><CX,p,G><CX,q,G><CX,GY,SG><CX,GY,SG>"},
 			{"{% macro m(x) %}{% include \"inc.tpl\" %}{% endmacro %}{{ m(\"MX\") }}", "<MX,GY,G>"},
+			{"{% macro m(x, y) %}[{{ x }}|{{ y }}|{{ g }}]{% endmacro %}{{ m(\"a\") }}{{ m() }}{% set y = \"SY\" %}{{ m(\"b\") }}", "[a||G][||G][b||G]"},
+			{"{% macro m(g, x=\"dx\") %}[{{ g }}|{{ x }}]{% endmacro %}{{ m() }}{{ m(1) }}", "[|dx][1|dx]"},
 			{"{% with x=y y=x %}{{ x }}{{ y }}{% endwith %}{{ x }}{{ y }}", "GYCXCXGY"},
 			{"{% with x=\"WX\" z=x y=x|lower %}{{ z }}{{ y }}{{ x }}{% endwith %}", "CXcxWX"},
 			{"{% with g=gm gm=g k=gm.k %}[{{ g.k }}][{{ gm }}][{{ k }}]{% endwith %}", "[][G][]"},
